@@ -35,7 +35,8 @@ def rand_gate(rng, npr, n, kinds):
         return gates.Pauli(qs, ids) if k == "Pauli" else gates.PauliRotation(qs, ids, O.rand_angle(rng))
     qs = rng.sample(range(n), need)
     if k in ("RX", "RY", "RZ", "U1"):
-        return getattr(gates, k)(qs[0], O.rand_angle(rng))
+        # now and then an angle many periods away from the cycle range (normalisation / fusing wrap several hundred times)
+        return getattr(gates, k)(qs[0], rng.uniform(-2000.0, 2000.0) if rng.random() < 0.08 else O.rand_angle(rng))
     if k == "U2":
         return gates.U2(qs[0], O.rand_angle(rng), O.rand_angle(rng))
     if k == "U3":
@@ -89,6 +90,11 @@ def configs(rng):
     for lo in (-math.pi, 0.0, math.pi, -2 * math.pi, 1.0):
         out.append((f"NormalizeRotationTranspiler(({lo},+2pi))",
                     lambda l=lo: T.NormalizeRotationTranspiler((l, l + 2 * math.pi)), VOCAB, 1e-9))
+    # cycle ranges whose width is 2 pi only up to the accepted epsilon (decimal literals, relaxed epsilon): the reduction
+    # is still modulo exactly 2 pi, so the action is preserved to rounding error
+    for lo, hi, e in ((0.0, 6.2832, 1e-4), (-3.1416, 3.1416, 1e-4), (-3.1415926536, 3.1415926536, 1e-9), (1.0, 7.28, 1e-2)):
+        out.append((f"NormalizeRotationTranspiler(({lo},{hi}),{e})",
+                    lambda l=lo, h=hi, e_=e: T.NormalizeRotationTranspiler((l, h), e_), VOCAB, 1e-9))
     for rot in (["RX", "RY", "RZ"], ["RX", "RY"], ["RY", "RZ"], ["RX", "RZ"], ["RZ"]):
         for fav in ((), ("H",), ("SqrtX",), ("H", "SqrtX")):
             out.append((f"RotationConversionTranspiler({rot},{fav})",
@@ -255,6 +261,31 @@ def focused_checks(res, rng, npr, tier):
         except ValueError:
             continue
         check_equal(res, f"sweep:TwoQubitUnitaryMatrixKAKTranspiler:local_equivalent_of_{bn}", f"KAK on a local equivalent of {bn}", c, out, tol=1e-6)
+    # exact products of named gates (entries 0, +-1, +-i, +-1/sqrt2 ...: exactly repeated eigenvalues, diagonal M^T M)
+    named = ["H", "S", "Sdag", "T", "X", "Y", "Z", "SqrtX", "SqrtY"]
+    for _ in range(150 if tier == "quick" else 3000):
+        m = np.eye(4, dtype=complex)
+        word = []
+        for _j in range(rng.randint(1, 5)):
+            r = rng.random()
+            if r < 0.45:
+                g = rng.choice(["CNOT", "CZ", "SWAP"])
+                qs = rng.sample(range(2), 2)
+                m = O.apply_local(m, O.local_matrix(g), qs, 2)
+                word.append((g, qs))
+            else:
+                g = rng.choice(named)
+                q = rng.randrange(2)
+                m = O.apply_local(m, O.CONST[g], [q], 2)
+                word.append((g, [q]))
+        c = QuantumCircuit(2)
+        c.add_gate(gates.UnitaryMatrix([0, 1], m.tolist()))
+        res.count(("kak-word", str(word)), bucket="focused:KAK")
+        try:
+            out = kak(c)
+        except ValueError:
+            continue
+        check_equal(res, "sweep:TwoQubitUnitaryMatrixKAKTranspiler:product_of_named_gates", f"KAK on the matrix of {word}", c, out, tol=1e-6)
     # canonical gate exp(i(a XX + b YY + c ZZ)) followed by a small local rotation on one qubit
     import scipy.linalg as sl
     for _ in range(30 if tier == "quick" else 400):
